@@ -18,6 +18,24 @@ fn prevailing_name(p: Prevailing) -> &'static str {
     }
 }
 
+/// the provider interface as a generic caller (the client's RP-ID verifier) and as a trait object reach it
+fn via_generic<P: public_suffix::EffectiveTLDProvider>(p: &P, d: &str) -> Result<String, String> {
+    p.effective_tld_plus_one(d).map(|s| s.to_string()).map_err(|e| format!("{e:?}"))
+}
+fn via_dyn(p: &dyn public_suffix::EffectiveTLDProvider, d: &str) -> Result<String, String> {
+    p.effective_tld_plus_one(d).map(|s| s.to_string()).map_err(|e| format!("{e:?}"))
+}
+
+/// every way of calling the lookup gives the same answer (method syntax on the provider, a generic caller, a trait object)
+fn same_through_the_trait(d: &str, direct: &Result<String, public_suffix::Error>) -> Result<(), String> {
+    let direct = direct.as_ref().map(|s| s.clone()).map_err(|e| format!("{e:?}"));
+    let g = catch_unwind(AssertUnwindSafe(|| (via_generic(&DEFAULT_PROVIDER, d), via_dyn(&DEFAULT_PROVIDER, d)))).map_err(|_| format!("lookup through the provider trait panicked for {:?}", trunc(d)))?;
+    if g.0 != direct || g.1 != direct {
+        return Err(format!("effective_tld_plus_one({:?}) = {:?} by method call, {:?} from a generic caller, {:?} through a trait object", trunc(d), direct, g.0, g.1));
+    }
+    Ok(())
+}
+
 /// Agreement check on a canonical (lower-case ASCII / A-label, no empty label) name.
 pub fn check_canonical(psl: &Psl, d: &str) -> Result<Prevailing, String> {
     let (want_suffix, prev) = psl.public_suffix(d);
@@ -30,6 +48,7 @@ pub fn check_canonical(psl: &Psl, d: &str) -> Result<Prevailing, String> {
         )
     }))
     .map_err(|_| format!("lookup panicked for {d:?}"))?;
+    same_through_the_trait(d, &got.1)?;
     if got.0 != want_suffix {
         return Err(format!("public_suffix({d:?}) = {:?}, PSL algorithm over the .dat gives {:?} (prevailing rule kind: {})", got.0, want_suffix, prevailing_name(prev)));
     }
@@ -55,6 +74,7 @@ pub fn check_structural(s: &str) -> Result<(), String> {
     }))
     .map_err(|_| format!("lookup panicked for {:?}", trunc(s)))?;
     let (suffix, e1, is_tld) = r;
+    same_through_the_trait(s, &e1)?;
     if !is_label_suffix(s, &suffix) {
         return Err(format!("public_suffix({:?}) = {:?} is not a suffix cut at a label boundary", trunc(s), trunc(&suffix)));
     }
